@@ -152,7 +152,9 @@ func RedundantTypeInDeclarationChecker(verb string, flagHelpfulTypes bool) *anal
 					// Check if the type is truly redundant, i.e. if the type on the lhs doesn't match the default type of the untyped constant.
 					tv, err := eval(v)
 					if err != nil {
-						panic(err)
+						// The expression cannot be type-checked on its own: it needs the declared type, for
+						// example to infer the type arguments of a generic function. The type isn't redundant.
+						continue specLoop
 					}
 					if b, ok := types.Unalias(tv.Type).(*types.Basic); ok && (b.Info()&types.IsUntyped) != 0 {
 						if Tlhs != types.Default(b) {
